@@ -310,3 +310,142 @@ func TestVerifC24Cluster(t *testing.T) {
 		}
 	})
 }
+
+// TestVerifC24ClusterLeave — a member LEAVES while the cluster keeps running
+// (replicas 2, so the cluster stays available as DEGRADED): the node that
+// streamed the translate log from the departed node has to re-attach to its new
+// ring predecessor. Keys created after the departure must reach every
+// surviving node with the coordinator's ids. Deciding: the wait for the
+// survivor to catch up is a watchdog; when it expires the verdict is taken
+// from state, not from the clock — a survivor whose stream source is a node
+// that is no longer in its own member list can never catch up (violation),
+// anything else is undecided.
+func TestVerifC24ClusterLeave(t *testing.T) {
+	r := vk.Start(t, "C24")
+	defer r.Finish()
+	r.Expect("leave:degraded", "leave:keys-after-departure", "leave:survivor-caught-up", "leave:successor-of-departed-node")
+	ctx := context.Background()
+	n := r.N(8, 320)
+	r.Cases("leave", n, func(i int, id string, rng *vk.Rand) {
+		c := vrcStart(t, 3, 2)
+		closed := map[int]bool{}
+		defer func() {
+			for k, m := range c {
+				if !closed[k] {
+					m.Close()
+				}
+			}
+		}()
+		coord := 0
+		for k, m := range c {
+			if m.API.Node().IsCoordinator {
+				coord = k
+			}
+		}
+		if _, err := c[coord].API.CreateIndex(ctx, "k", pilosa.IndexOptions{Keys: true}); err != nil {
+			t.Fatal(err)
+		}
+		if _, err := c[coord].API.CreateField(ctx, "k", "f", pilosa.OptFieldTypeSet(pilosa.CacheTypeNone, 0), pilosa.OptFieldKeys()); err != nil {
+			t.Fatal(err)
+		}
+		var steps []string
+		wit := func() interface{} { return map[string]interface{}{"steps": steps} }
+		write := func(lo, hi int) bool {
+			var sb strings.Builder
+			for k := lo; k < hi; k++ {
+				fmt.Fprintf(&sb, "Set(%q, f=%q) ", fmt.Sprintf("col%d", k), fmt.Sprintf("row%d", k%3))
+			}
+			steps = append(steps, fmt.Sprintf("coordinator: keys col%d..col%d", lo, hi-1))
+			if _, err := c[coord].API.Query(ctx, &pilosa.QueryRequest{Index: "k", Query: sb.String()}); err != nil {
+				r.FailOrUndecided("leave:write-error", id, err.Error(), wit())
+				return false
+			}
+			return true
+		}
+		n1 := 3 + rng.Intn(10)
+		if !write(0, n1) {
+			return
+		}
+		// stop one replica; the other one is the survivor under test
+		var others []int
+		for k := range c {
+			if k != coord {
+				others = append(others, k)
+			}
+		}
+		victim, survivor := others[0], others[1]
+		if rng.Bool() {
+			victim, survivor = survivor, victim
+		}
+		victimID := c[victim].API.Node().ID
+		wasSource := pilosa.VerifTranslatePrimaryID(c[survivor].API) == victimID
+		steps = append(steps, fmt.Sprintf("node %s stops (it was the survivor's stream source: %v)", victimID, wasSource))
+		r.InFlightDetail(id, wit())
+		if err := c[victim].Close(); err != nil {
+			r.Note("inconclusive:"+id, "stopping the node failed: "+err.Error())
+			return
+		}
+		closed[victim] = true
+		deadline := time.Now().Add(60 * time.Second)
+		for c[coord].API.State() != pilosa.ClusterStateDegraded || c[survivor].API.State() != pilosa.ClusterStateDegraded {
+			if time.Now().After(deadline) {
+				r.Note("inconclusive:"+id, "the survivors did not report DEGRADED (watchdog)")
+				return
+			}
+			time.Sleep(5 * time.Millisecond)
+		}
+		r.Cover("leave:degraded")
+		n2 := n1 + 3 + rng.Intn(10)
+		if !write(n1, n2) {
+			return
+		}
+		r.Cover("leave:keys-after-departure")
+		deadline = time.Now().Add(45 * time.Second)
+		for pilosa.VerifTranslateSize(c[survivor].API) < pilosa.VerifTranslateSize(c[coord].API) {
+			if time.Now().After(deadline) {
+				src := pilosa.VerifTranslatePrimaryID(c[survivor].API)
+				member := false
+				for _, nd := range c[survivor].API.Hosts(nil) {
+					member = member || nd.ID == src
+				}
+				r.Eval(1)
+				if !member {
+					r.Fail("leave:replica-streams-from-departed-node", id, fmt.Sprintf("node %s still takes the translate log from %q, which is not in its member list any more; it holds %d of the coordinator's %d bytes and cannot catch up", c[survivor].API.Node().ID, src, pilosa.VerifTranslateSize(c[survivor].API), pilosa.VerifTranslateSize(c[coord].API)), wit())
+				} else {
+					r.Note("inconclusive:"+id, "survivor did not catch up within the watchdog (its stream source is a live member)")
+				}
+				return
+			}
+			time.Sleep(5 * time.Millisecond)
+		}
+		r.Cover("leave:survivor-caught-up")
+		if wasSource {
+			r.Cover("leave:successor-of-departed-node")
+		}
+		var keys []string
+		for k := 0; k < n2; k++ {
+			keys = append(keys, fmt.Sprintf("col%d", k))
+		}
+		want, err := pilosa.VerifTranslateCols(c[coord].API, "k", keys)
+		if err != nil {
+			r.Fail("leave:primary:lookup-error", id, err.Error(), wit())
+			return
+		}
+		got, err := pilosa.VerifTranslateCols(c[survivor].API, "k", keys)
+		r.Eval(len(keys))
+		if err != nil {
+			r.Fail("leave:replica:lookup-error", id, fmt.Sprintf("survivor translating the %d known keys: %v", len(keys), err), wit())
+			return
+		}
+		for k := range keys {
+			if got[k] != want[k] || got[k] == 0 {
+				r.Fail("leave:replica:id-differs", id, fmt.Sprintf("key %q: survivor %d, coordinator %d", keys[k], got[k], want[k]), wit())
+				return
+			}
+		}
+		r.Distinct(vk.Hash64("c24leave", id), true)
+		if r.WantSample() {
+			r.Sample(wit())
+		}
+	})
+}
